@@ -45,7 +45,7 @@ pub fn child(args: &[String]) -> i32 {
     let types = registry();
     println!("MIRI-CHILD-START");
     let (mut cases, mut ops, mut nontrivial, mut fails) = (0u64, 0u64, 0u64, 0u64);
-    let mut one = |t: &TypeInfo, table: u8, fm: &crate::forms::FormMeta, p: P| {
+    let mut one = |t: &TypeInfo, table: u8, fm: &crate::meta::FormMeta, p: P| {
         println!("CASE {}", case_id(t, table, fm.name, &p));
         let Some(o) = run_form(t, table, fm, &p) else {
             println!("CHILD-MACHINERY form not executable");
